@@ -288,14 +288,14 @@ Proof.
 Qed.
 
 (* one packet of the consecutive stream: the number of packets still needed drops by one *)
-Lemma need_step s p : Inv s -> wf p -> first s = true -> unrel s = true ->
+Lemma need_step s p : Inv s -> wf p -> first s = true -> unrel s = true -> bsize (buf s) <= 16384 ->
   exists s1 out l k, process s p = Ok s1 out l k /\ Inv s1 /\ first s1 = true /\ unrel s1 = true /\
     bsize (buf s1) = bsize (buf s) /\
     needZ (bsize (buf s)) (neg s1) (rho (last s1) p)
       <= Z.max 0 (needZ (bsize (buf s)) (neg s) (relpos (last s) p) - 1) /\
     (needZ (bsize (buf s)) (neg s) (relpos (last s) p) <= 0 -> l = 0 /\ (out = [] \/ exists rest, out = p :: rest)).
 Proof.
-  intros HI Hp Hf Hu.
+  intros HI Hp Hf Hu Hsz.
   destruct (step_shape s p HI Hp Hf Hu) as (s1 & out & l & k & E & HI1 & Hf1 & Hu1 & Hb & H).
   exists s1, out, l, k. splits; auto.
   - cbn zeta in H. destruct (iv_buf s HI Hu) as (HB & Hn).
@@ -342,16 +342,16 @@ Qed.
 Lemma last_default {A} (a : A) l : forall d d', List.last (a :: l) d = List.last (a :: l) d'.
 Proof. revert a; induction l as [|b t IH]; intros a d d'; [reflexivity|]. cbn [List.last] in *. apply IH. Qed.
 
-Lemma feeds_need ps : forall s s' x, Inv s -> first s = true -> unrel s = true ->
+Lemma feeds_need ps : forall s s' x, Inv s -> first s = true -> unrel s = true -> bsize (buf s) <= 16384 ->
   Feeds s ps s' -> consec x ps -> Forall wf ps ->
   forall p0 rest, ps = p0 :: rest ->
   needZ (bsize (buf s)) (neg s) (relpos (last s) p0) <= Z.of_nat (length ps) ->
   Inv s' /\ bsize (buf s') = bsize (buf s) /\ tracking s' (pseq (List.last ps p0)).
 Proof.
-  induction ps as [|p t IH]; intros s s' x HI Hf Hu HF Hc Hw p0 rest Eps Hneed; [discriminate|].
+  induction ps as [|p t IH]; intros s s' x HI Hf Hu Hsz HF Hc Hw p0 rest Eps Hneed; [discriminate|].
   injection Eps as <- <-. inversion HF as [|? ? s1 out l k ? ? Ep HF']; subst.
   inversion Hw as [|? ? Hp Hw']; subst. cbn [consec] in Hc. destruct Hc as (Hx & Hc).
-  destruct (need_step s p HI Hp Hf Hu) as (s1' & out' & l' & k' & Ep' & HI1 & Hf1 & Hu1 & Hb & Hstep & _).
+  destruct (need_step s p HI Hp Hf Hu Hsz) as (s1' & out' & l' & k' & Ep' & HI1 & Hf1 & Hu1 & Hb & Hstep & _).
   rewrite Ep in Ep'. injection Ep' as <- <- <- <-.
   destruct (iv_buf s HI Hu) as (HB & Hn). pose proof (pow2B_range _ (bi_pow _ _ _ HB)) as HR.
   destruct (iv_buf s1 HI1 Hu1) as (_ & Hn1). rewrite Hb in Hn1.
@@ -364,7 +364,7 @@ Proof.
   - pose proof Hc as Hc2. cbn [consec] in Hc2. destruct Hc2 as (Hx' & _).
     assert (Enext : relpos (last s1) p' = rho (last s1) p).
     { apply rho_next; [exact Hp|]. rewrite Hx', Hx. unfold w16. lia. }
-    destruct (IH s1 s' (x + 1) HI1 Hf1 Hu1 HF' Hc Hw' p' t' eq_refl) as (A & B & C).
+    destruct (IH s1 s' (x + 1) HI1 Hf1 Hu1 ltac:(rewrite Hb; exact Hsz) HF' Hc Hw' p' t' eq_refl) as (A & B & C).
     { rewrite Hb, Enext. cbn [length] in *. lia. }
     split; [exact A|]. split; [congruence|].
     replace (List.last (p :: p' :: t') p) with (List.last (p' :: t') p') by (cbn [List.last]; apply last_default).
@@ -373,25 +373,26 @@ Qed.
 
 (* R1: after B+1 (or more) consecutive packets of a new stream, wherever it starts, the receiver tracks it *)
 Theorem restart_followed s ps s' x p0 rest : Inv s -> first s = true -> unrel s = true ->
+  bsize (buf s) <= 16384 ->
   Feeds s ps s' -> consec x ps -> Forall wf ps -> ps = p0 :: rest ->
   bsize (buf s) + 1 <= Z.of_nat (length ps) ->
   tracking s' (pseq (List.last ps p0)) /\ bsize (buf s') = bsize (buf s).
 Proof.
-  intros HI Hf Hu HF Hc Hw Eps Hlen.
+  intros HI Hf Hu Hsz HF Hc Hw Eps Hlen.
   destruct (iv_buf s HI Hu) as (HB & Hn). pose proof (pow2B_range _ (bi_pow _ _ _ HB)) as HR.
   pose proof (needZ_bound (bsize (buf s)) (neg s) (relpos (last s) p0) (proj1 HR) Hn).
-  destruct (feeds_need ps s s' x HI Hf Hu HF Hc Hw p0 rest Eps) as (_ & B & C); [lia|]. auto.
+  destruct (feeds_need ps s s' x HI Hf Hu Hsz HF Hc Hw p0 rest Eps) as (_ & B & C); [lia|]. auto.
 Qed.
 
 (* R2: while tracking, every further packet of the stream is handled without loss: it is delivered at
    the front of the output, or its number was already delivered (stale copy) and it is dropped;
    tracking is kept *)
-Theorem tracking_kept s p x : Inv s -> wf p -> first s = true -> unrel s = true ->
+Theorem tracking_kept s p x : Inv s -> wf p -> first s = true -> unrel s = true -> bsize (buf s) <= 16384 ->
   tracking s x -> pseq p = w16 (x + 1) ->
   exists s1 out l k, process s p = Ok s1 out l k /\ tracking s1 (pseq p) /\ l = 0 /\
     (out = [] \/ exists rest, out = p :: rest).
 Proof.
-  intros HI Hp Hf Hu Ht Ex.
+  intros HI Hp Hf Hu Hsz Ht Ex.
   destruct (iv_buf s HI Hu) as (HB & Hn). pose proof (pow2B_range _ (bi_pow _ _ _ HB)) as HR.
   pose proof (bi_L _ _ _ HB) as HL.
   assert (Hr : - bsize (buf s) < relpos (last s) p <= 0).
@@ -400,7 +401,7 @@ Proof.
       destruct (Z.ltb_spec (((x + 1) mod 65536 - last s - 1) mod 65536) 32768); lia. }
   assert (Hz : needZ (bsize (buf s)) (neg s) (relpos (last s) p) <= 0).
   { unfold needZ. destruct (Z.leb_spec (relpos (last s) p) 0); destruct (Z.ltb_spec (- bsize (buf s)) (relpos (last s) p)); cbn [andb]; lia. }
-  destruct (need_step s p HI Hp Hf Hu) as (s1 & out & l & k & Ep & HI1 & Hf1 & Hu1 & Hb & Hstep & Hout).
+  destruct (need_step s p HI Hp Hf Hu Hsz) as (s1 & out & l & k & Ep & HI1 & Hf1 & Hu1 & Hb & Hstep & Hout).
   exists s1, out, l, k. destruct (Hout Hz) as (-> & Ho). splits; auto.
   destruct (iv_buf s1 HI1 Hu1) as (_ & Hn1). rewrite Hb in Hn1.
   apply rho_tracking; auto; [exact (iv_last s1 HI1)|rewrite Hb; lia|].
